@@ -58,3 +58,54 @@ func VerifC15Observer(maxEvents, nobs int) {
 }
 
 func VerifC15ObserverTwin(maxEvents, nobs int) { VerifC15Observer(maxEvents, nobs); vFail("C15.twin") }
+
+// VerifC15AddNode: a node is added to a manager that is already in use (AddNode directly, or a
+// configuration built from an address the manager has not seen) while another goroutine looks
+// nodes up (Node, Nodes) and uses what it finds (LastErr, Latency, an RPC). Whatever becomes
+// visible through the manager must be completely initialised, ordered by the manager's own
+// lock. Run under the race monitor.
+func VerifC15AddNode() {
+	w := vMixed(1, 0, nil)
+	vFreezeEnv()
+	p2 := w.net.addPeer(2, true)
+	via := vChoice("via", 2)
+	go func() {
+		if via == 0 {
+			n, err := NewRawNodeWithID(p2.addr, 2)
+			if err == nil {
+				_ = w.mgr.AddNode(n)
+			}
+		} else {
+			_, _ = NewRawConfiguration(w.mgr, WithNodeMap(map[string]uint32{p2.addr: 2}))
+		}
+	}()
+	go func() {
+		var found *RawNode
+		if vChoice("lookup", 2) == 0 {
+			found, _ = w.mgr.Node(2)
+		} else {
+			for _, n := range w.mgr.Nodes() {
+				if n.ID() == 2 {
+					found = n
+				}
+			}
+		}
+		if found == nil {
+			return
+		}
+		vReach("found-while-adding")
+		switch vChoice("use", 3) {
+		case 0:
+			_ = found.LastErr()
+		case 1:
+			_ = found.Latency()
+		case 2:
+			c := fsNewCall(ckRPC, 9, 1)
+			_, _ = found.RPCCall(c.ctx, CallData{Message: c.req, Method: "verif.rpc"})
+		}
+	}()
+	vQuiescent()
+	vReach("end")
+}
+
+func VerifC15AddNodeTwin() { VerifC15AddNode(); vFail("C15.twin") }
